@@ -1,4 +1,5 @@
 import TurVerif.Model.Budget
+import TurVerif.Lemmas.BudgetPool
 /-!
 C39  The memory budget is a hard limit.
 
@@ -263,6 +264,103 @@ theorem seq_safe (limit : Nat) (prog : List Op) (n : Nat) :
     let s := run (init limit [prog]) (List.replicate n 0)
     s.totalUsed ≤ s.limit :=
   (seq_run _ n (seq_init limit prog)).2.1
+
+/-- HARD LIMIT, same-pool part (full: ANY number of threads, ANY schedule): if every operation of
+every thread is an `alloc` on one and the same pool `p` (no releases), tracked usage never exceeds
+the limit.  Reason (invariant `Budget.PoolInv`): `used[p]` is the only counter that changes and it
+only grows, so a successful compare-exchange proves it was unchanged since it was loaded — the
+total that was checked against the limit is still the total.  (The cross-pool race below needs two
+different counters; a release would allow ABA on the single counter.) -/
+theorem same_pool_alloc_only_safe (limit : Nat) (p : Nat) (progs : List (List Op))
+    (hall : ∀ prog ∈ progs, ∀ op ∈ prog, ∃ b, op = .alloc p b) (sched : List Nat) :
+    let s := run (init limit progs) sched
+    s.totalUsed ≤ s.limit :=
+  (pool_run (pool_init p limit progs hall) sched).tot
+
+/-- a step of a thread inside `release` (`rLoad` / `rCas`) never increases any counter -/
+theorem release_never_increases (s s' : State) (tid : Nat) (t : Thread)
+    (hs : step s tid = some s') (ht : s.threads[tid]? = some t)
+    (hpc : (∃ p b, t.pc = .rLoad p b) ∨ (∃ p b cur, t.pc = .rCas p b cur)) (q : Nat) :
+    s'.used.getD q 0 ≤ s.used.getD q 0 := by
+  unfold step at hs
+  simp only [ht] at hs
+  rcases hpc with ⟨p, b, hq⟩ | ⟨p, b, cur, hq⟩
+  · simp only [hq] at hs
+    injection hs with hs; subst hs
+    exact Nat.le_refl _
+  · simp only [hq] at hs
+    split at hs
+    · rename_i hc
+      injection hs with hs; subst hs
+      simp only [setThread]
+      rw [getD_set]
+      split
+      · rename_i h; obtain ⟨rfl, _⟩ := h; omega
+      · exact Nat.le_refl _
+    · injection hs with hs; subst hs
+      exact Nat.le_refl _
+
+/-- a successful allocation CAS increases exactly its pool by exactly its size, leaves every other
+counter alone, and the call returns Ok -/
+theorem alloc_step_exact (s s' : State) (tid : Nat) (t : Thread) (p b cur : Nat)
+    (hs : step s tid = some s') (ht : s.threads[tid]? = some t) (hpc : t.pc = .aCas p b cur)
+    (hc : s.used.getD p 0 = cur) (hp : p < s.used.length) :
+    s'.used.getD p 0 = s.used.getD p 0 + b ∧ (∀ q, q ≠ p → s'.used.getD q 0 = s.used.getD q 0) ∧
+    ∃ t', s'.threads[tid]? = some t' ∧ t'.pc = .idle ∧ t'.results = true :: t.results := by
+  unfold step at hs
+  simp only [ht, hpc, hc, if_true] at hs
+  injection hs with hs; subst hs
+  have htid : tid < s.threads.length := by
+    rcases Nat.lt_or_ge tid s.threads.length with hl | hl
+    · exact hl
+    · rw [List.getElem?_eq_none hl] at ht; cases ht
+  refine ⟨?_, ?_, { t with pc := .idle, results := true :: t.results },
+    by simp [setThread, htid], rfl, rfl⟩
+  · simp only [setThread]
+    rw [getD_set, if_pos ⟨rfl, hp⟩, hc]
+  · intro q hq
+    simp only [setThread]
+    rw [getD_set, if_neg (fun h => hq h.1.symm)]
+
+/-- a failed allocation CAS (the counter moved since it was loaded) changes no counter and retries
+from the pool load -/
+theorem alloc_cas_retry (s s' : State) (tid : Nat) (t : Thread) (p b cur : Nat)
+    (hs : step s tid = some s') (ht : s.threads[tid]? = some t) (hpc : t.pc = .aCas p b cur)
+    (hc : s.used.getD p 0 ≠ cur) :
+    s'.used = s.used ∧ ∃ t', s'.threads[tid]? = some t' ∧ t'.pc = .aLoadPool p b := by
+  unfold step at hs
+  simp only [ht, hpc, hc, if_false] at hs
+  injection hs with hs; subst hs
+  have htid : tid < s.threads.length := by
+    rcases Nat.lt_or_ge tid s.threads.length with hl | hl
+    · exact hl
+    · rw [List.getElem?_eq_none hl] at ht; cases ht
+  exact ⟨rfl, { t with pc := .aLoadPool p b }, by simp [setThread, htid], rfl⟩
+
+/-- non-vacuity of `same_pool_alloc_only_safe`: three threads race on the Shared pool with the
+limit at 4 MiB; all three load the same counter value and pass the check, one CAS wins, the two
+losers retry, one more fits, the last is refused -/
+example :
+    let progs : List (List Op) := [[.alloc 4 2000000], [.alloc 4 2000000], [.alloc 4 2000000]]
+    let s := run (init 4194304 progs)
+      (List.replicate 8 0 ++ List.replicate 8 1 ++ List.replicate 8 2 ++ [0, 1, 2] ++
+        List.replicate 9 1 ++ List.replicate 9 2)
+    s.totalUsed = 4000000 ∧ s.totalUsed ≤ s.limit ∧
+    (s.threads.map (·.results)) = [[true], [true], [false]] := by decide +kernel
+
+/-- the "no releases" hypothesis of `same_pool_alloc_only_safe` is NECESSARY: on ONE pool, with a
+release in between, the compare-exchange succeeds on a counter that went away and came back (ABA).
+Thread 0 loads the Shared counter (2 000 000), thread 1 releases its 2 000 000, thread 0 computes
+`total_used()` = 0 and passes the check for 2 500 000, thread 1 allocates 2 000 000 again, thread
+0's CAS sees the value it loaded and succeeds: total 4 500 000 > 4 MiB. -/
+theorem same_pool_release_aba_counterexample :
+    let progs : List (List Op) :=
+      [[.alloc 4 2500000], [.alloc 4 2000000, .release 4 2000000, .alloc 4 2000000]]
+    let s := run (init 4194304 progs)
+      (List.replicate 9 1 ++ [0, 0] ++ [1, 1, 1] ++ List.replicate 6 0 ++ List.replicate 9 1 ++ [0])
+    s.limit = 4194304 ∧ s.totalUsed = 4500000 ∧ s.totalUsed > s.limit ∧
+    (s.threads.map (·.results)) = [[true], [true, true]] := by
+  decide +kernel
 
 /-! ### the full statement is FALSE of the code: cross-pool check-then-CAS race -/
 
